@@ -80,10 +80,22 @@ def rand_soft(rng, seq, role="constraint", allow=None):
 
 def rand_objective(rng, seq):
     n = len(seq)
-    k = rng.choice(["cai", "cai", "keep", "change", "gc", "pattern", "user", "kmers_obj"])
+    k = rng.choice(["cai", "cai", "keep", "change", "gc", "pattern", "user", "kmers_obj", "sequence_obj"])
     boost = rng.choice([0, 0.5, 1, 1, 2, 3])
     if k == "cai" and n >= 3:
         return dict(kind="cai", location=rand_loc(rng, n, codon=True), table_seed=rng.randint(0, 10 ** 6), boost=boost)
+    if k == "sequence_obj":
+        a = rng.randint(0, n - 1)
+        b = rng.randint(a + 1, min(n, a + 12))
+        alpha = "ATGC" if rng.random() < 0.5 else "ATGCNWSRY"
+        target = "".join(rng.choice(alpha) for _ in range(b - a))
+        if rng.random() < 0.5:
+            # already satisfied on its strand: the optimizer must not trade it away
+            st = rng.choice([1, -1])
+            sub = seq[a:b]
+            target = sub if st == 1 else "".join({"A": "T", "T": "A", "G": "C", "C": "G"}[c] for c in reversed(sub))
+            return dict(kind="sequence_obj", sequence=target, location=[a, b, st], boost=boost)
+        return dict(kind="sequence_obj", sequence=target, location=[a, b, rng.choice([1, -1, 0])], boost=boost)
     if k == "keep":
         return dict(kind="keep_obj", location=None if rng.random() < 0.5 else rand_loc(rng, n, 2, strands=(1, 0)), boost=boost)
     if k == "change":
@@ -228,6 +240,8 @@ def build_spec(d):
         return dc.HarmonizeRCA(codon_usage_table=hard.user_table(random.Random(d["table_seed"])),
                                original_codon_usage_table=hard.user_table(random.Random(d["orig_table_seed"])),
                                location=loc, boost=boost)
+    if k == "sequence_obj":
+        return dc.EnforceSequence(sequence=d["sequence"], location=loc, boost=boost)
     if k == "keep_obj":
         return dc.AvoidChanges(location=loc, boost=boost)
     if k == "change_obj":
